@@ -135,7 +135,7 @@ func (s *c14Scenario) serial(first int) (string, [2]int) {
 func checkC14(c *Ctx) {
 	c.Rule = "controlled two-activity scheduler: one API request and one poll step (1-3 board messages) run in goroutines on the same real node service; every State/Storage call first asks for the baton. All schedules with at most 2 (quick) / 3 (thorough) pre-emptions are enumerated per (request kind, message kind) scenario, each replayed from a snapshot; the final logical state (operation pool, tombstones, round projections, signature stores, offset, messages posted; ids/times masked) must equal the final state of one of the two serial orders. Thorough adds a free-running soak of the same pairs on real LevelDB with the real Poll() under the Go race detector. distinct = distinct executed interleavings (grant traces)"
 	c.Assumptions = []string{"MemState (one lock per call, like LevelDBState.Get/Set) for the enumerated schedules; LevelDBState itself only in the race soak", "scheduling granularity = State/Storage interface calls"}
-	builders := []func(seed uint64) (*c14Scenario, error){scnSubmitVsProposal, scnApproveVsOtherRound, scnReinitFinishVsOtherRound, scnResetVsPoll, scnSaveOffsetVsPoll, scnSubmitVsSameRound}
+	builders := []func(seed uint64) (*c14Scenario, error){scnSubmitVsProposal, scnApproveVsOtherRound, scnReinitFinishVsOtherRound, scnResetVsPoll, scnSaveOffsetVsPoll, scnSubmitVsSameRound, scnSubmitVsSignatures}
 	maxPre := c.Pick(2, 3)
 	Parallel(len(builders), 8, func(bi int) {
 		s, err := builders[bi](c.Seed*1000 + uint64(bi))
@@ -415,10 +415,18 @@ func scnSubmitVsSameRound(seed uint64) (*c14Scenario, error) {
 	if _, err := w.StartDKG(0, 2, now()); err != nil {
 		return nil, err
 	}
-	// run until v holds the commits operation and the others have posted their commits
-	w.OpFilter = func(n *world.Node, op *types.Operation) bool { return !(n.Idx == 2 && string(op.Type) == OpCommits) }
-	w.Run(world.EagerPolicy, 2000)
-	w.OpFilter = nil
+	pollAll := func() {
+		for _, nd := range w.Nodes {
+			_, _ = nd.PollStep(0)
+		}
+	}
+	pollAll() // everybody sees the proposal
+	for _, nd := range w.Nodes {
+		for _, o := range w.PendingOps(nd) {
+			_ = w.HandleOp(nd, o) // approvals
+		}
+	}
+	pollAll() // everybody sees the three confirmations and holds the commits operation
 	var op *types.Operation
 	for _, o := range w.PendingOps(v) {
 		if string(o.Type) == OpCommits {
@@ -434,20 +442,55 @@ func scnSubmitVsSameRound(seed uint64) (*c14Scenario, error) {
 		w.Close()
 		return nil, err
 	}
-	// un-poll: v must still have the others' commit messages unread -> rewind v to before them
-	// (v polled them in Run); instead use the state as is and let the poller consume what is new:
-	// post one more broadcast for v to consume: the others' commits are already consumed, so use
-	// a reconstruction-irrelevant message of the round: node 0 re-posts its commit (rejected as duplicate)
-	all := w.Board.All()
-	for _, m := range all {
-		if m.Event == EvCommit && m.SenderAddr == w.Nodes[0].Name {
-			_ = w.Board.Send(m)
-			break
+	// the other two post their commits; v has not polled them yet
+	for _, nd := range w.Nodes[:2] {
+		for _, o := range w.PendingOps(nd) {
+			_ = w.HandleOp(nd, o)
 		}
 	}
-	s := &c14Scenario{Name: "submit-commit||poll-duplicate-commit-of-same-round", W: w, V: v, Snap: v.Mem.Snapshot(), Board: w.Board.Len(), Closer: w.Close}
+	s := &c14Scenario{Name: "submit-commit||poll-two-commits-of-same-round", W: w, V: v, Snap: v.Mem.Snapshot(), Board: w.Board.Len(), Closer: w.Close}
 	s.API = func() error { return v.Svc.ProcessOperation(world.OpToDTO(res)) }
 	s.Poll = func() error { _, err := v.PollStep(0); return err }
+	return s, nil
+}
+
+// submit the late answer to a batch while the poller stores the reconstructed signatures of that batch
+func scnSubmitVsSignatures(seed uint64) (*c14Scenario, error) {
+	ce, err := baseWorld(seed, 3, 2)
+	if err != nil {
+		return nil, err
+	}
+	w := ce.W
+	v := w.Nodes[2]
+	if err := w.ProposeSign(0, ce.Round, map[string][]byte{"one": []byte("1")}, nil); err != nil {
+		return nil, err
+	}
+	_, _ = v.PollStep(0) // v sees the proposal and holds its operation, then lags
+	for round := 0; round < 6; round++ {
+		for _, nd := range w.Nodes[:2] {
+			_, _ = nd.PollStep(0)
+			for _, o := range w.PendingOps(nd) {
+				_ = w.HandleOp(nd, o)
+			}
+		}
+	}
+	if len(BoardMsgs(w, ce.Round, EvSigRecon)) == 0 {
+		ce.Close()
+		return nil, fmt.Errorf("no reconstruction broadcast")
+	}
+	ops := w.PendingOps(v)
+	if len(ops) != 1 {
+		ce.Close()
+		return nil, fmt.Errorf("expected one pending operation on the slow signer, have %d", len(ops))
+	}
+	res, err := w.ColdResult(v, ops[0], false)
+	if err != nil {
+		ce.Close()
+		return nil, err
+	}
+	s := &c14Scenario{Name: "submit-late-answer||poll-answers-and-signatures", W: w, V: v, Snap: v.Mem.Snapshot(), Board: w.Board.Len(), Closer: ce.Close}
+	s.API = func() error { return v.Svc.ProcessOperation(world.OpToDTO(res)) }
+	s.Poll = func() error { _, err := v.PollStep(int(v.Offset()) + 3); return err }
 	return s, nil
 }
 
